@@ -188,6 +188,12 @@ def check_formula(run, bp, g, cards):
             g.rnd.shuffle(order)
             for name, (m, exp) in order:
                 v = f.size(m)
+                # the three entry points agree (FNode.size, the environment's oracle, the shortcut)
+                import pysmt.shortcuts as _sc
+                others = (env.sizeo.get_size(f, m), _sc.get_formula_size(f, m))
+                if others != (v, v):
+                    fail("size-entry-points", "size(%s): FNode.size %r, env.sizeo.get_size %r, shortcuts.get_formula_size %r" % (
+                        name, v, others[0], others[1]))
                 if name == "SYMBOLS":
                     if not (nsym_leaves <= v <= max(nsym_all, nsym_leaves)):
                         fail("size-SYMBOLS", "size(SYMBOLS) = %r outside [%d, %d]" % (v, nsym_leaves, nsym_all))
@@ -221,6 +227,17 @@ def check_formula(run, bp, g, cards):
                 atoms_b = {pys.decode(a, memo) for a in atoms}
                 if atoms_b != want_atoms:
                     fail("atoms", "reported %s expected %s" % (sorted(map(show, atoms_b)), sorted(map(show, want_atoms))))
+                # the other entry points
+                import pysmt.shortcuts as _sc
+                try:
+                    others = (f.get_atoms(), _sc.get_atoms(f))
+                except Exception as e:
+                    others = ("raised " + type(e).__name__,) * 2
+                if others != (atoms, atoms):
+                    fail("atoms-entry-points", "env.ao.get_atoms %s, FNode.get_atoms %s, shortcuts.get_atoms %s" % (
+                        sorted(map(str, atoms)), others[0], others[1]))
+                if _sc.get_free_variables(f) != f.get_free_variables():
+                    fail("free-variables-entry-points", "shortcuts.get_free_variables differs from FNode.get_free_variables")
     # -- semantic dependence (outside the env)
     syms = sorted(all_symbols(b), key=repr)
     free = reffv(b)
@@ -265,6 +282,10 @@ def shard(shard, seed, n):
     def strat(draw):
         g = G(cfg=cfg, rnd=draw(st.randoms(use_true_random=True)))
         ty = BOOL if g.pct(75) else g.ty()
+        if g.pct(6):
+            # a formula that is a single leaf (a constant or a symbol), or the negation of one
+            t0 = g.leaf(ty) if g.pct(50) else g.constant(ty) if ty in (BOOL, INT, REAL, STRING) or is_bv(ty) else g.leaf(ty)
+            return (("NOT", (), (t0,)) if ty == BOOL and g.pct(40) else t0), g, g.cards()
         return g.term(ty), g, g.cards()
 
     def body(case):
